@@ -10,7 +10,7 @@
 
 namespace drv {
 struct Op { std::string name; long a = 0, b = 0; };
-struct Program { std::string config; std::vector<Op> setup; std::vector<std::vector<Op>> threads; };
+struct Program { std::string config; std::vector<Op> setup; std::vector<std::vector<Op>> threads; std::vector<int> after; };
 
 inline std::vector<std::string> split(const std::string& s, char sep) {
   std::vector<std::string> out; std::string cur;
@@ -31,7 +31,11 @@ inline Program parse(const std::string& s) {
   Program p; auto parts = split(s, ';');
   p.config = parts.size() > 0 ? parts[0] : "";
   if (parts.size() > 1) p.setup = parse_ops(parts[1]);
-  for (size_t i = 2; i < parts.size(); i++) p.threads.push_back(parse_ops(parts[i]));
+  for (size_t i = 2; i < parts.size(); i++) {
+    std::string seg = parts[i]; int aft = -1;
+    if (!seg.empty() && seg[0] == '@') { size_t c = seg.find(':'); aft = atoi(seg.c_str() + 1); seg = c == std::string::npos ? "" : seg.substr(c + 1); }
+    p.after.push_back(aft); p.threads.push_back(parse_ops(seg));
+  }
   return p;
 }
 } // namespace drv
